@@ -957,9 +957,33 @@ def emit_fn(gen, sf, it, opts, blk, what, in_trait_impl, variant):
         "sha256": hashlib.sha256(raw.encode()).hexdigest()[:16], "rules": log, "stub": stub,
     })
     if not stub:
-        gen.functions.append({"fn": what, "labels": labels_of(contract), "source": f"{sf.rel}:{src_line0}"})
+        gen.functions.append({"fn": what, "labels": labels_of(contract), "source": f"{sf.rel}:{src_line0}", "opaque_constructs": opaque_constructs(body)})
     else:
         gen.trusted.append(f"stub {what} (contract assumed in this unit)")
+
+
+def opaque_constructs(body):
+    """Constructs Verus ACCEPTS but gives no meaning: a closure without a contract (its result is unconstrained) and
+    string-literal patterns in a `match`.  An obligation rejected in a function that contains one is undecided - the
+    rejection may be due to the missing meaning, not to the code - and is never reported as a violation."""
+    if body is None:
+        return []
+    m = mask(body, literals=False)          # comments blanked, literals kept (needed for the pattern test)
+    mm = mask(body)
+    out = []
+    # closures: `|params|` or `||` in expression position (after `(` `,` `=` `{` `;` `return` `move`), not followed by `->`
+    for mt in re.finditer(r"(?:(?<=[(,={;])|(?<=\breturn)|(?<=\bmove))\s*(\|[^|\n]*\|)(?!\s*->)", mm):
+        params = mt.group(1)
+        after = mm[mt.end():mt.end() + 40]
+        if re.match(r"\s*(requires|ensures)\b", after):
+            continue
+        out.append("closure without a contract: `%s ...`" % params.strip())
+    for mt in re.finditer(r"\bmatch\b[^{;]*\{", mm):
+        end = match_close(mm, mt.end() - 1)
+        arms = m[mt.end():end]
+        if re.search(r'(?:^|[,{|]|\n)\s*"[^"\n]*"\s*(?:\|\s*"[^"\n]*"\s*)*=>', arms):
+            out.append("string-literal pattern in a match")
+    return sorted(set(out))
 
 
 def emit_item(gen, sf, it, opts, blk, what):
